@@ -343,6 +343,39 @@ func repetitionSeeds() []seed {
 			add(fmt.Sprintf("%s-long-item-list-variant-%d", major, v), kind, gen.EncodeBoxes(avifBoxesVariant(minBlock, major, v)).B)
 		}
 	}
+	{ // iref / iprp / iinf / ipco whose payload is a run of child headers that each claim more than is left of the parent
+		for _, parent := range []string{"iref", "iprp", "iinf"} {
+			for _, major := range []string{"avif", "heic"} {
+				boxes := avifBoxes(minBlock, major)
+				var target *gen.Box
+				gen.Walk(boxes, func(b *gen.Box, d int) {
+					if b.Type == parent {
+						target = b
+					}
+				})
+				if target == nil {
+					continue
+				}
+				var run []byte
+				for i := 0; i < 60000; i++ {
+					run = append(run, 0xff, 0xff, 0xff, 0xff, 'd', 'i', 'm', 'g')
+				}
+				target.Children = nil
+				target.Tail = run
+				kind := map[string]string{"avif": "avif", "heic": "heif"}[major]
+				add(fmt.Sprintf("%s-%s-with-60000-child-headers-that-overrun-it", major, parent), kind, gen.EncodeBoxes(boxes).B)
+			}
+		}
+	}
+	{ // many pending values that start inside the data and run past its end
+		for _, cut := range []int{50, 1000, 3000} {
+			d := overlappingStrings(83, 4000, 1, II).B
+			first := 8 + 2 + 83*12 + 4
+			if first+cut < len(d) {
+				add(fmt.Sprintf("tiff-83-strings-of-4000-cut-%d-bytes-into-the-values", cut), "tiff", append([]byte{}, d[:first+cut]...))
+			}
+		}
+	}
 	{ // PNG with thousands of empty ancillary chunks before the eXIf chunk
 		var before []gen.Chunk
 		for i := 0; i < 20000; i++ {
